@@ -1263,6 +1263,8 @@ static void DecodeBSS(Word Index) {
     }
 }
 
+static Boolean DecodeAttrPart_MSP(void);
+
 static void DecodeRPT(Word Code) {
     char *  pOpPart, *pArgPart1, *pAttrPart;
     Boolean OK;
@@ -1313,6 +1315,15 @@ static void DecodeRPT(Word Code) {
         *pAttrPart = '\0';
     } else {
         StrCompReset(&AttrPart);
+    }
+
+    /* the operand size follows from the repeated instruction's attribute, not
+       from the (empty) one of RPTx: */
+
+    AttrPartOpSize = eSymbolSizeUnknown;
+    if (!DecodeAttrPart_MSP()) {
+        MultPrefix = 0;
+        return;
     }
 
     /* prefix 0x0000 is rptc #1 and effectively a NOP prefix: */
